@@ -230,7 +230,7 @@ CHECKS = {
         text="spec/StackModel.tla models each list-walking operation as a traversal with an explicit stack that iterates along the cdr "
              "chain and recurses into the car; TLC checks that the deepest stack is bounded by the nesting depth for every list length "
              "and rejects the as-found variant in which clone, == and the datum span information recurse along the cdr. The model "
-             "yields the operation x shape x builder matrix (24 operations, proper/dotted, parser/constructors/Serde); every cell is "
+             "yields the operation x shape x builder matrix (35 operations incl. clone_from, comparison of differing lists, drops during unwinding, Serde's skipping / map / text paths and type-mismatch errors; proper/dotted; parser/constructors/Serde); every cell is "
              "executed in a child process inside a thread with a fixed 2 MiB stack on a list of 10^6 (thorough: 4*10^6) elements, in "
              "the release and the debug profile; TLC checks that the whole matrix was covered and every cell survived.",
         design_ref="DESIGN.md section 6 (C16), section 9",
